@@ -6,6 +6,7 @@ from ..core.interp import Interp, Arr, FuncRef, Frame, Opaque, RaiseSignal, Ref
 from ..core.report import AnalysisError
 from ..frontend.pyfront import Repo
 from ..oracles import ts72
+from . import solver_model as SM
 from .common import need_func, make_eq
 
 LEVEL = 'other'
@@ -34,7 +35,7 @@ def run(chk):
     legacy_solver.surface(chk, repo, d, 'R02.6')
     legacy_solver.driver_bc(chk, repo, d, 'R02.6')
     chk.floor('R02.6', 19)
-    chk.floor('R02.1', 6); chk.floor('R02.2', 10); chk.floor('R02.3', 16); chk.floor('R02.4', 40); chk.floor('R02.5', 16)
+    chk.floor('R02.1', 6); chk.floor('R02.2', 17); chk.floor('R02.3', 16); chk.floor('R02.4', 40); chk.floor('R02.5', 16)
     chk.assume('gravity, densities, G > 0; layer solutions arbitrary complex numbers (generic: the denominators y4 of the third solid solution and lambda_2 are non-zero)')
 
 
@@ -110,52 +111,40 @@ def find_if(func, pred):
 
 
 def bc_table(chk, repo, d, eq):
+    """R02.2 by prefix interpretation of cf_radial_solver (solver_model.solver_bc_table): no dependence on the names of the solver's locals or on whether the table is
+    filled inline or by a helper"""
     ms = repo.by_path('TidalPy/RadialSolver/solver.pyx')
     f = need_func(ms, 'cf_radial_solver')
-    node = find_if(f, lambda n: ast.unparse(n.test) == 'solve_for is None')
-    if node is None:
-        raise AnalysisError('cf_radial_solver: boundary-condition table (if solve_for is None) not found')
-    l = X.atom('l', 'pos'); R = X.atom('R_planet', 'pos'); rho = X.atom('rho_bulk', 'pos')
-    ref = {'tidal': (X.ZERO, X.ZERO, (2 * l + 1) / R), 'loading': (-(2 * l + 1) * rho / 3, X.ZERO, (2 * l + 1) / R), 'free': (X.ZERO, X.ZERO, X.ZERO)}
-    from .common import local_atoms_hook
-    it = Interp(repo, hooks={'global': local_atoms_hook(ms, f)})
+    where = ms.where(f)
+    for nd in (False, True):
+        tag = 'non-dimensional' if nd else 'dimensional'
 
-    def run_with(solve_for):
-        fr = Frame(ms, 'cf_radial_solver')
-        bc = Arr('bc')
-        fr.vars.update({'solve_for': solve_for, 'bc_pointer': bc, 'degree_l_dbl': l, 'radius_planet_to_use': R, 'bulk_density_to_use': rho, 'max_num_solutions': 5, 'num_ytypes': 1})
-        it.exec(node, fr)
-        return bc, fr
-    where = ms.where(node)
-    bc, fr = run_with(None)
-    ok = sorted(bc.store) == [0, 1, 2] and all(d.equal(bc.store[k], ref['tidal'][k]) for k in range(3)) and fr.vars.get('solve_for') == ('tidal',)
-    chk.ob('R02.2', 'default (solve_for=None) == tidal condition (0, 0, (2l+1)/R) and solve_for becomes ("tidal",)', ok, f'{ {k: X.show(v)[:30] for k, v in bc.store.items()} }', where, method='fragment interpretation')
-    import itertools
-    names = ['tidal', 'loading', 'free']
-    combos = [(n,) for n in names] + [('Tidal', 'LOADING'), ('free', 'tidal', 'loading'), ('loading', 'loading', 'free', 'tidal', 'tidal')]
-    for combo in combos:
-        bc, fr = run_with(combo)
-        bad = []
-        if sorted(bc.store) != list(range(3 * len(combo))):
-            bad.append(f'slots written {sorted(bc.store)}')
-        else:
+        def refs(sym):
+            l = sym['l']; R = X.ONE if nd else sym['R']; rho = X.ONE if nd else sym['rho_bulk']
+            return {'tidal': (X.ZERO, X.ZERO, (2 * l + 1) / R), 'loading': (-(2 * l + 1) * rho / 3, X.ZERO, (2 * l + 1) / R), 'free': (X.ZERO, X.ZERO, X.ZERO)}
+        vals, fr, sym = SM.solver_bc_table(repo, None, nd)
+        ref = refs(sym)
+        ok = all(d.equal(vals[k], ref['tidal'][k]) for k in range(3))
+        chk.ob('R02.2', f'default (solve_for=None, {tag}) == tidal condition (0, 0, (2l+1)/R)', ok, f'{[X.show(v)[:30] for v in vals]}', where, key=f'R02.2|default|{nd}', method='prefix interpretation of cf_radial_solver')
+        names = ['tidal', 'loading', 'free']
+        combos = [(n,) for n in names] + [('Tidal', 'LOADING'), ('free', 'tidal', 'loading'), ('loading', 'loading', 'free', 'tidal', 'tidal')]
+        for combo in combos:
+            vals, fr, sym = SM.solver_bc_table(repo, combo, nd)
+            ref = refs(sym)
+            bad = []
             for i, nm in enumerate(combo):
                 for k in range(3):
-                    if not d.equal(bc.store[3 * i + k], ref[nm.lower()][k]):
-                        bad.append(f'{nm}[{k}] = {X.show(bc.store[3 * i + k])[:40]}')
-        if fr.vars.get('num_ytypes') != len(combo): bad.append(f'num_ytypes = {fr.vars.get("num_ytypes")}')
-        chk.ob('R02.2', f'solve_for={combo}: condition of type i stored at 3i..3i+2, independently per type', not bad, '; '.join(bad[:3]), where, key=f'R02.2|{combo}', method='fragment interpretation + GF(p^2) PIT')
-    for bad_combo in (('bogus',), ('tidal', 'nope')):
+                    if not d.equal(vals[3 * i + k], ref[nm.lower()][k]):
+                        bad.append(f'{nm}[{k}] = {X.show(vals[3 * i + k])[:40]}')
+            chk.ob('R02.2', f'solve_for={combo} ({tag}): condition of type i stored at 3i..3i+2, independently per type', not bad, '; '.join(bad[:3]), where, key=f'R02.2|{combo}|{nd}',
+                   method='prefix interpretation of cf_radial_solver + GF(p^2) PIT')
+    for bad_combo in (('bogus',), ('tidal', 'nope'), ('tidal',) * 6):
         try:
-            run_with(bad_combo); raised = False
+            SM.solver_bc_table(repo, bad_combo, False); raised = False
         except RaiseSignal:
             raised = True
-        chk.ob('R02.2', f'solve_for={bad_combo}: unknown type raises', raised, 'no exception', where, method='fragment interpretation')
-    try:
-        run_with(('tidal',) * 6); raised = False
-    except RaiseSignal:
-        raised = True
-    chk.ob('R02.2', 'more than 5 requested types raises (boundary table holds 5 x 3 values)', raised, 'no exception', where, method='fragment interpretation')
+        chk.ob('R02.2', f'solve_for={bad_combo if len(bad_combo) < 6 else "six types"}: raises (unknown name / more than the 5 x 3 values the table holds)', raised, 'no exception', where,
+               method='prefix interpretation of cf_radial_solver')
 
 
 # ------------------------------------------------------------------------------------------------ interfaces
